@@ -4,6 +4,9 @@
 #include "cqv.h"
 #include <stdlib.h>
 #include "crc32_spec.h"
+#ifndef CQV_K
+#define CQV_K 0
+#endif
 
 /* Ghost state.  Written ONLY by the statements the overlay contracts/crc32.ovl inserts into
  * crc32_slicing_by_8:
@@ -89,21 +92,51 @@ __CPROVER_ensures(cqv_B(s, d) == spec_crc32_byte(s, d))
 {
 }
 
-/* L-slide-k: consuming byte d_k with the byte step turns H_k into H_{k+1} */
-#define CQV_SLIDE(K, K1, DK)                                                             \
+/* L-lin-j: table j is GF(2)-linear: Tj[a ^ b] == Tj[a] ^ Tj[b], all (a, b) */
+void cqv_lemma_lin(unsigned j, uint8_t a, uint8_t b)
+__CPROVER_requires(j < 8)
+__CPROVER_assigns()
+__CPROVER_ensures(crc32_tables[j][(uint8_t)(a ^ b)] == (crc32_tables[j][a] ^ crc32_tables[j][b]))
+{
+}
+
+/* L-rec: Tn[x] is n zero-byte steps of T0[x], written with the tables n-1..n-4 (all x, n = 1..7) */
+void cqv_lemma_rec(uint8_t x)
+__CPROVER_assigns()
+__CPROVER_ensures(CQV_T(1, x) == (CQV_T(0, CQV_Y(CQV_T(0, x), 0)) ^ (CQV_T(0, x) >> 8)))
+__CPROVER_ensures(CQV_T(2, x) == (CQV_T(1, CQV_Y(CQV_T(0, x), 0)) ^ CQV_T(0, CQV_Y(CQV_T(0, x), 1)) ^ (CQV_T(0, x) >> 16)))
+__CPROVER_ensures(CQV_T(3, x) == (CQV_T(2, CQV_Y(CQV_T(0, x), 0)) ^ CQV_T(1, CQV_Y(CQV_T(0, x), 1)) ^ CQV_T(0, CQV_Y(CQV_T(0, x), 2)) ^ (CQV_T(0, x) >> 24)))
+__CPROVER_ensures(CQV_T(4, x) == (CQV_T(3, CQV_Y(CQV_T(0, x), 0)) ^ CQV_T(2, CQV_Y(CQV_T(0, x), 1)) ^ CQV_T(1, CQV_Y(CQV_T(0, x), 2)) ^ CQV_T(0, CQV_Y(CQV_T(0, x), 3))))
+__CPROVER_ensures(CQV_T(5, x) == (CQV_T(4, CQV_Y(CQV_T(0, x), 0)) ^ CQV_T(3, CQV_Y(CQV_T(0, x), 1)) ^ CQV_T(2, CQV_Y(CQV_T(0, x), 2)) ^ CQV_T(1, CQV_Y(CQV_T(0, x), 3))))
+__CPROVER_ensures(CQV_T(6, x) == (CQV_T(5, CQV_Y(CQV_T(0, x), 0)) ^ CQV_T(4, CQV_Y(CQV_T(0, x), 1)) ^ CQV_T(3, CQV_Y(CQV_T(0, x), 2)) ^ CQV_T(2, CQV_Y(CQV_T(0, x), 3))))
+__CPROVER_ensures(CQV_T(7, x) == (CQV_T(6, CQV_Y(CQV_T(0, x), 0)) ^ CQV_T(5, CQV_Y(CQV_T(0, x), 1)) ^ CQV_T(4, CQV_Y(CQV_T(0, x), 2)) ^ CQV_T(3, CQV_Y(CQV_T(0, x), 3))))
+{
+}
+
+/* L-slide-k: consuming byte d_k with the byte step turns H_k into H_{k+1}.
+ * Proof: x = s0 ^ d_k, t = T0[x], bytestep(s, d_k) = t ^ (s >> 8); every table index of H_{k+1} is
+ * t_i ^ y_i with y_i the corresponding index of H_k; split by L-lin, collect the T[t_i] by L-rec. */
+#define CQV_SLIDE(K, K1, DK, PROOF)                                                      \
   void cqv_lemma_slide##K(uint32_t s, CQV_D8)                                            \
   __CPROVER_assigns()                                                                    \
   __CPROVER_ensures(cqv_H##K(s, CQV_A8) == cqv_H##K1(cqv_B(s, DK), CQV_A8))              \
   {                                                                                      \
+    uint8_t x = (uint8_t)(CQV_Y(s, 0) ^ DK);                                             \
+    uint32_t t = CQV_T(0, x);                                                            \
+    uint8_t t0 = (uint8_t)CQV_Y(t, 0), t1 = (uint8_t)CQV_Y(t, 1), t2 = (uint8_t)CQV_Y(t, 2), t3 = (uint8_t)CQV_Y(t, 3); \
+    uint8_t s1 = (uint8_t)CQV_Y(s, 1), s2 = (uint8_t)CQV_Y(s, 2), s3 = (uint8_t)CQV_Y(s, 3); \
+    cqv_lemma_rec(x);                                                                    \
+    PROOF                                                                                \
   }
-CQV_SLIDE(0, 1, d0)
-CQV_SLIDE(1, 2, d1)
-CQV_SLIDE(2, 3, d2)
-CQV_SLIDE(3, 4, d3)
-CQV_SLIDE(4, 5, d4)
-CQV_SLIDE(5, 6, d5)
-CQV_SLIDE(6, 7, d6)
-CQV_SLIDE(7, 8, d7)
+#define CQV_L(j, a, b) cqv_lemma_lin(j, a, (uint8_t)(b));
+CQV_SLIDE(0, 1, d0, CQV_L(6, t0, s1 ^ d1) CQV_L(5, t1, s2 ^ d2) CQV_L(4, t2, s3 ^ d3) CQV_L(3, t3, d4))
+CQV_SLIDE(1, 2, d1, CQV_L(5, t0, s1 ^ d2) CQV_L(4, t1, s2 ^ d3) CQV_L(3, t2, s3 ^ d4) CQV_L(2, t3, d5))
+CQV_SLIDE(2, 3, d2, CQV_L(4, t0, s1 ^ d3) CQV_L(3, t1, s2 ^ d4) CQV_L(2, t2, s3 ^ d5) CQV_L(1, t3, d6))
+CQV_SLIDE(3, 4, d3, CQV_L(3, t0, s1 ^ d4) CQV_L(2, t1, s2 ^ d5) CQV_L(1, t2, s3 ^ d6) CQV_L(0, t3, d7))
+CQV_SLIDE(4, 5, d4, CQV_L(2, t0, s1 ^ d5) CQV_L(1, t1, s2 ^ d6) CQV_L(0, t2, s3 ^ d7))
+CQV_SLIDE(5, 6, d5, CQV_L(1, t0, s1 ^ d6) CQV_L(0, t1, s2 ^ d7))
+CQV_SLIDE(6, 7, d6, CQV_L(0, t0, s1 ^ d7))
+CQV_SLIDE(7, 8, d7, )
 
 /* L-block: the block statement of the real code equals eight bit-serial byte steps, all 2^96 */
 void cqv_lemma_block8(uint32_t c, CQV_D8)
@@ -150,11 +183,20 @@ void h_lemma_byte(void) {
   CQV_CANARY("byte lemma harness end");
 }
 
-#ifndef CQV_K
-#define CQV_K 0
-#endif
 #define CQV_CAT_(a, b) a##b
 #define CQV_CAT(a, b) CQV_CAT_(a, b)
+void h_lemma_lin(void) {
+  cqv_module_state(1);
+  cqv_lemma_lin(CQV_K, nondet_u8(), nondet_u8());
+  CQV_CANARY("lin lemma harness end");
+}
+
+void h_lemma_rec(void) {
+  cqv_module_state(1);
+  cqv_lemma_rec(nondet_u8());
+  CQV_CANARY("rec lemma harness end");
+}
+
 void h_lemma_slide(void) {
   cqv_module_state(1);
   CQV_CAT(cqv_lemma_slide, CQV_K)(nondet_u32(), nondet_u8(), nondet_u8(), nondet_u8(), nondet_u8(),
